@@ -36,8 +36,8 @@ Print Assumptions tenant_isolation.
 Example c17_delivery :
   let run := fold_left (λ st o, let r := step [] st.1 o in (r.1, (st.2 ++ [r.2])%list)) in
   let ops := [EConnect 0%nat "a" "dev" "ta" "" 60 None 10; ESubscribe "a" 1 [("#", 0); ("+/#", 0)] 20;
-              EConnect 0%nat "b" "dev" "tb" "" 60 (Some (Publish "will" "w" 0 false)) 30; ESubscribe "b" 1 [("#", 0)] 40;
-              EPublish "b" (Publish "/lead" "x" 0 true) false 0 50; EPing "a" 60; EEof "b" 70;
+              EConnect 0%nat "b" "dev" "tb" "" 60 (Some (Publish "will" "w" 0 false false)) 30; ESubscribe "b" 1 [("#", 0)] 40;
+              EPublish "b" (Publish "/lead" "x" 0 true false) false 0 50; EPing "a" 60; EEof "b" 70;
               EConnect 0%nat "c" "dev2" "ta" "" 60 None 80; ESubscribe "c" 2 [("#", 0)] 90] in
   let o := (run ops (cnew 1%nat, [])).2 in
   nth 4%nat o [] = [Appended 0%nat "tb//lead" "x" 0 false; Deadline "b" 120000; Out "b" (OPublish "/lead" "x" 0 false false 0)]
